@@ -169,6 +169,27 @@ def dispatch_table(fn):
         return table
 
 
+def factory_run(fn):
+    """`FactoryPool.run`: sleep first, then `supply, demand = self.supply, self.demand` and one if / else that
+    shrinks or grows towards `demand`; returns the Lean condition under which it shrinks"""
+    tree = ast.parse(textwrap.dedent(inspect.getsource(fn))).body[0]
+    loop = next((st for st in tree.body if isinstance(st, ast.While)), None)
+    if loop is None or not (isinstance(loop.test, ast.Constant) and loop.test.value is True):
+        raise Untranslatable("no `while True` loop")
+    stmts = loop.body
+    if not (len(stmts) == 3 and isinstance(stmts[0], ast.Expr) and isinstance(stmts[0].value, ast.Await)
+            and ast.unparse(stmts[0].value.value) == "trio.sleep(self.interval)"):
+        raise Untranslatable("the loop does not start with `await trio.sleep(self.interval)`")
+    if ast.unparse(stmts[1]) != "(supply, demand) = (self.supply, self.demand)" and ast.unparse(stmts[1]) != "supply, demand = (self.supply, self.demand)":
+        raise Untranslatable("freeze: %s" % ast.unparse(stmts[1]))
+    branch = stmts[2]
+    if not (isinstance(branch, ast.If) and len(branch.body) == 1 and len(branch.orelse) == 1):
+        raise Untranslatable("decision: %s" % ast.unparse(branch)[:80])
+    if ast.unparse(branch.body[0]) != "self._shrink(target=demand)" or ast.unparse(branch.orelse[0]) != "self._grow(target=demand)":
+        raise Untranslatable("branches: %s / %s" % (ast.unparse(branch.body[0]), ast.unparse(branch.orelse[0])))
+    return "decide (%s)" % expr(branch.test, {"supply": "supply", "demand": "demand"})
+
+
 def strs_lean(l):
     return "[" + ", ".join('"%s"' % x.replace("\\", "\\\\").replace('"', '\\"') for x in l) + "]"
 
@@ -196,7 +217,7 @@ def render():
     from cobald.controller.relative_supply import RelativeSupplyController
     from cobald.monitor import format_line
     out = ["/- GENERATED by harness/vh/translate.py from the source text of /repo — do not edit.",
-           "   Regenerated on every run of the checks that depend on it (C06 C08 C13 C17); the theorems `gen_*` in",
+           "   Regenerated on every run of the checks that depend on it (C06 C08 C13 C15 C17); the theorems `gen_*` in",
            "   their Props files equate these definitions with the hand-written models and are thereby",
            "   re-checked against what the code says now. -/",
            "import CobaldVerif.Model.Num", "", "namespace Cobald.Gen", "open Cobald Cobald.ERat", ""]
@@ -229,6 +250,8 @@ def render():
     emit("escapeKeyPairs", "", "List (Char × List Char)", lambda: chain_of(format_line.escape_key, 0, 1))
     emit("escapeFieldPairs", "", "List (Char × List Char)", lambda: chain_of(format_line.escape_field, 0, 1))
     emit("escapeNamePairs", "", "List (Char × List Char)", lambda: chain_of(format_line.line_protocol, 0, 1))
+    from cobald.composite.factory import FactoryPool
+    emit("factoryShrinks", "(supply demand : Rat)", "Bool", lambda: factory_run(FactoryPool.run))
     import cobald.daemon.core.config as core_config
     emit("dispatchYaml", "", "List String", lambda: strs_lean(dispatch_table(core_config.load)["yaml"]))
     emit("dispatchPython", "", "List String", lambda: strs_lean(dispatch_table(core_config.load)["python"]))
